@@ -387,6 +387,8 @@ func (m *Module) provablyNonNil(v ssa.Value, b *ssa.BasicBlock, depth int) bool 
 		return false
 	}
 	switch x := v.(type) {
+	case *ssa.Alloc, *ssa.MakeMap, *ssa.MakeSlice, *ssa.MakeChan, *ssa.MakeClosure, *ssa.FieldAddr, *ssa.IndexAddr:
+		return true
 	case *ssa.MakeInterface:
 		// boxing any concrete-typed value (even a nil pointer) yields a non-nil interface value
 		if _, isIface := x.X.Type().Underlying().(*types.Interface); !isIface {
